@@ -47,10 +47,12 @@ ALL_ROUTES = ["dense"] + CTOR_SPARSE + FORMS + OP_ROUTES
 ACCESSORS = ["nnz", "data_obs", "data_samp", "iter_obs", "iter_samp", "matrix_data", "get_value", "sum",
              "metadata",
              # exports and conversions are read-only too
-             "to_tsv", "to_tsv_key", "to_json", "to_hdf5", "to_dataframe", "md_df_obs", "md_df_samp", "str", "repr"]
+             "to_tsv", "to_tsv_key", "to_json", "to_hdf5", "to_dataframe", "md_df_obs", "md_df_samp", "str", "repr",
+             # an iteration SUSPENDED after its first vector while another read flips the layout, then resumed
+             "iter_samp_flip", "iter_obs_flip"]
 # one representative per layout effect (nnz / to-CSR / to-CSC / COO-only / none)
-ACC_CLASSES = {"nnz": ["nnz"], "vecObs": ["data_obs", "iter_obs", "to_tsv_key", "str", "to_tsv"],
-               "vecSamp": ["data_samp", "iter_samp", "to_json", "to_hdf5"],
+ACC_CLASSES = {"nnz": ["nnz"], "vecObs": ["data_obs", "iter_obs", "to_tsv_key", "str", "to_tsv", "iter_obs_flip"],
+               "vecSamp": ["data_samp", "iter_samp", "to_json", "to_hdf5", "iter_samp_flip"],
                "getValue": ["get_value"],
                "plain": ["matrix_data", "sum", "metadata", "to_dataframe", "md_df_obs", "md_df_samp", "repr"]}
 MAY_RAISE = {"to_hdf5": ValueError, "md_df_obs": KeyError, "md_df_samp": KeyError}
@@ -501,6 +503,70 @@ def apply_ident(t, op, axis, inplace, k):
     raise ValueError(op)
 
 
+REFUSED_OPS = ["update_ids_dup_new", "update_ids_collide_retained", "update_ids_strict_missing", "filter_unknown_id",
+               "filter_pred_raises", "del_md_bad_axis", "norm_bad_axis", "subsample_negative", "sort_order_unknown",
+               "add_md_bad_axis", "update_ids_dup_new_other_axis"]
+
+
+class _Boom(Exception):
+    pass
+
+
+def refused_route(base, ops, axis, k):
+    return "refused|%s|%s|%s|%d" % (base, ops, axis, k)
+
+
+def apply_refused(t, op, axis, k):
+    """an in-place call that the library must refuse; the exception is caught, as a caller validating user input
+    would.  Returns whether it was refused."""
+    ids = [x for x in t.ids(axis=axis)]
+    other_axis = "sample" if axis == "observation" else "observation"
+    oids = [x for x in t.ids(axis=other_axis)]
+
+    def boom(v, i, m):
+        if i == ids[-1]:
+            raise _Boom()
+        return True
+    try:
+        if op == "update_ids_dup_new":
+            if len(ids) < 2:
+                raise Skip()
+            t.update_ids({ids[0]: "same new name", ids[-1]: "same new name"}, axis=axis, strict=False, inplace=True)
+        elif op == "update_ids_dup_new_other_axis":
+            if len(oids) < 2:
+                raise Skip()
+            t.update_ids({i: "x" for i in oids}, axis=other_axis, inplace=True)
+        elif op == "update_ids_collide_retained":
+            if len(ids) < 2:
+                raise Skip()
+            t.update_ids({ids[k % (len(ids) - 1)]: ids[-1]}, axis=axis, strict=False, inplace=True)
+        elif op == "update_ids_strict_missing":
+            if len(ids) < 2:
+                raise Skip()
+            t.update_ids({ids[0]: "renamed"}, axis=axis, strict=True, inplace=True)
+        elif op == "filter_unknown_id":
+            t.filter(ids[:1] + ["\x00 no such id"], axis=axis, inplace=True)
+        elif op == "filter_pred_raises":
+            t.filter(boom, axis=axis, inplace=True)
+        elif op == "del_md_bad_axis":
+            t.del_metadata(keys=None, axis="no such axis")
+        elif op == "add_md_bad_axis":
+            t.add_metadata({ids[0]: {"k": "v"}}, axis="no such axis")
+        elif op == "norm_bad_axis":
+            t.norm(axis="no such axis", inplace=True)
+        elif op == "subsample_negative":
+            t.subsample(-1, axis=axis)
+        elif op == "sort_order_unknown":
+            t.sort_order(ids[:-1] + ["\x00 no such id"], axis=axis)
+        else:
+            raise ValueError(op)
+    except Skip:
+        raise
+    except Exception:
+        return True
+    return False
+
+
 def reorder_keys(md, which):
     """the same entries with the key insertion order reversed on the IDs in `which` (never the first ID)"""
     out = []
@@ -576,6 +642,18 @@ def build_operand(spec, route, need_model=True):
         if not need_model:
             return t, None, facts
         # identity fields stay those of the base route; the representation reached is the model's input
+        mi = dict(mi, layout=flat_rowmajor(t.matrix_data), fmt=fmt_label(t.matrix_data), ctor=False)
+        return t, mi, {}
+    if route.startswith("refused|"):
+        _, base_route, ops, axis, k = route.split("|")
+        t, mi, facts = build_operand(spec, base_route, need_model=True)
+        if t.shape[0] == 0 or t.shape[1] == 0:
+            raise Skip()
+        for j, op in enumerate(ops.split("+")):
+            if not apply_refused(t, op, axis, int(k) + j):
+                raise Skip()            # accepted after all: not a refusal, nothing to judge here
+        if not need_model:
+            return t, None, facts
         mi = dict(mi, layout=flat_rowmajor(t.matrix_data), fmt=fmt_label(t.matrix_data), ctor=False)
         return t, mi, {}
     if route.startswith("xform:"):
@@ -774,6 +852,28 @@ def do_accessor(t, name, k, cells=None, vecs=None):
             str(t)
         elif name == "repr":
             repr(t)
+        elif name in ("iter_samp_flip", "iter_obs_flip"):
+            ax = "sample" if name == "iter_samp_flip" else "observation"
+            n_ax = len(samp) if ax == "sample" else len(obs)
+            it = [lambda: t.iter(axis=ax), lambda: t.iter(axis=ax, dense=False),
+                  lambda: zip(t.iter_data(axis=ax), t.ids(axis=ax), itertools.repeat(None))][k % 3]()
+            got = [next(it)]
+            # a read of the OTHER axis while the generator is suspended
+            if ax == "sample":
+                [lambda: t.data(o, axis="observation"), lambda: str(t), lambda: list(t.iter(axis="observation"))][(k // 3) % 3]()
+            else:
+                [lambda: t.data(s, axis="sample"), lambda: t.to_json("c16"), lambda: list(t.iter())][(k // 3) % 3]()
+            got += list(it)
+            if vecs is not None:
+                for v, i, _ in got:
+                    v = v.toarray().ravel() if hasattr(v, "toarray") else v
+                    vecs.append([ax, str(i), fr_list(v)])
+            if len(got) != n_ax and vecs is not None:
+                vecs.append([ax, "<iteration yielded %d of %d vectors>" % (len(got), n_ax), []])
+            # the layout left behind is the resumed iteration's, or the other read's when nothing was left to resume
+            if n_ax == 1:
+                return "data_obs" if ax == "sample" else "data_samp"
+            return "iter_samp" if ax == "sample" else "iter_obs"
         else:
             raise ValueError(name)
     except (KeyError, ValueError) as e:
@@ -1234,8 +1334,8 @@ def _run_pair(ctx, case, tags=()):
     if same != (case["expect"] == "equal") and (case["route_a"].startswith("aliased:") or
                                                  str(case["route_b"]).startswith("aliased:")):
         ctx.fail(case, "aliased-source-changed", tags, detail=detail)
-    elif same != (case["expect"] == "equal") and (case["route_a"].startswith("ident|") or
-                                                   str(case["route_b"]).startswith("ident|")):
+    elif same != (case["expect"] == "equal") and (case["route_a"].startswith(("ident|", "refused|")) or
+                                                   str(case["route_b"]).startswith(("ident|", "refused|"))):
         # an operation that must be the identity on content changed it (IDs, order, values or metadata)
         ctx.fail(case, "identity-history-changed-content", tags, detail=detail)
     elif same != (case["expect"] == "equal"):
@@ -1397,7 +1497,7 @@ def mutate(rng, spec, only=None):
     s = copy.deepcopy(spec)
     n, m = len(s["obs"]), len(s["samp"])
     kinds = ["value", "value_to_zero", "value_from_zero", "obs_id", "samp_id", "type", "md_value", "md_absent",
-             "md_extra_key", "md_extra_key", "obs_id_tricky", "samp_id_tricky", "obs_id_tricky", "samp_id_tricky"]
+             "md_extra_key", "md_extra_key", "md_none_key", "md_none_key", "obs_id_tricky", "samp_id_tricky", "obs_id_tricky", "samp_id_tricky"]
     if only is not None:
         kinds = [only]
     if n > 1:
@@ -1473,6 +1573,16 @@ def mutate(rng, spec, only=None):
             e = rng.choice(cand)
             k = rng.choice(sorted(e))
             e[k] = "changed" if not isinstance(e[k], list) else e[k] + ["extra"]
+            return kind, s
+        if kind == "md_none_key":
+            # one ID holds one more key, bound to None (or a whole axis whose only statements are None)
+            ax = rng.choice(["omd", "smd"])
+            ids = s["obs"] if ax == "omd" else s["samp"]
+            if not s.get(ax):
+                s[ax] = [{"unset": None} for _ in ids] if rng.random() < 0.5 else \
+                    [({"unset": None} if i == len(ids) - 1 else {}) for i in range(len(ids))]
+            else:
+                rng.choice(s[ax])["unset"] = None
             return kind, s
         if kind == "md_extra_key":
             # one ID gets one more key; everything else identical (metadata created when the axis has none)
@@ -1659,7 +1769,7 @@ def run(ctx):
             run_pair(ctx, pair_case(spec2, "lol_coo_zeros", spec2d, "csc", steps, "differs"), ("interleaving",))
             run_pair(ctx, pair_case(spec3, "copy", spec3, "csr_unsorted", steps, "equal"), ("interleaving", "nonuniform-md"))
     if quick:
-        for _ in range(90):
+        for _ in range(60):
             run_pair(ctx, pair_case(spec2, rng.choice(CTOR_SPARSE), spec2, rng.choice(FORMS[:8]), gen_steps(rng, 3),
                                     "equal"), ("interleaving", "random-3"))
 
@@ -1727,7 +1837,7 @@ def run(ctx):
     #      norm / pa / rankdata / subsample, on both axes, in place and not: the result is compared FIRST (before
     #      anything could read nnz) with an independent construction of the same dense content, both ways, and with
     #      its own copy()
-    for k in range(150 if quick else 700):
+    for k in range(120 if quick else 700):
         spec = core.gen_spec(rng, max_n=4, max_m=4, classes=[("smallcount",), ("smallcount", "count"), VALUE_CLASSES][k % 3],
                              density=rng.choice([0.6, 0.8, 1.0]))
         axis = ["observation", "sample"][k % 2]
@@ -1742,7 +1852,7 @@ def run(ctx):
     # 4d3. histories that must be the identity on content — selection of everything with the IDs given in every
     #      order and container kind, reordering into the current order, renaming IDs to themselves, transposing
     #      twice, ... — against an untouched, independently built twin
-    for k in range(170 if quick else 700):
+    for k in range(150 if quick else 700):
         spec = gen_spec(rng, quick, nonuniform=(k % 4 == 0))
         if k % 3 == 0:
             spec["omd"] = core.gen_md(rng, spec["obs"], kind="mixed")
@@ -1769,6 +1879,52 @@ def run(ctx):
         run_pair(ctx, pair_case(spec, xform_route("dense", 0, again, axis, k % 4 < 2), spec,
                                 xform_route("csc", 0, chain, axis, False), [], "equal"), ("identity", "idempotent"))
 
+    # 4d4. refused in-place calls (colliding or missing names in update_ids, unknown IDs, a raising predicate, an
+    #      unknown axis, ...): the exception is caught and the table must still be its untouched twin — content,
+    #      == both ways, exports, and every by-ID question through its own lookups
+    for k in range(70 if quick else 600):
+        spec = gen_spec(rng, quick, nonuniform=(k % 4 == 0))
+        axis = ["observation", "sample"][k % 2]
+        ops = REFUSED_OPS[k % len(REFUSED_OPS)]
+        if k % 6 == 5:
+            ops = ops + "+" + REFUSED_OPS[(k * 5 + 1) % len(REFUSED_OPS)]
+        ra = refused_route(rng.choice(["dense", "csc", "csr_unsorted", "copy"]), ops, axis, k)
+        rb = rng.choice(["dense", "csr", "lol_coo_zeros"])
+        st = gen_steps(rng, rng.choice([0, 1, 1]))
+        ctx.count("refused-op=%s" % ops.split("+")[0])
+        if k % 2:
+            run_pair(ctx, pair_case(spec, ra, spec, rb, st, "equal", exports=(k % 9 == 0)), ("refused", "ops=" + ops))
+        else:
+            run_pair(ctx, pair_case(spec, rb, spec, ra, st, "equal", exports=(k % 9 == 0)), ("refused", "ops=" + ops))
+
+    # 4d5. metadata keys bound to None: content like any other entry (equal pairs through routes; one such key more
+    #      or less is a difference, both ways round)
+    for k in range(40 if quick else 500):
+        spec = gen_spec(rng, quick, nonuniform=False)
+        for ax, ids in (("omd", spec["obs"]), ("smd", spec["samp"])):
+            if k % 3 != (0 if ax == "omd" else 1):
+                spec[ax] = [{"grp": rng.choice(["a", "b"]), "unset": None if (i + k) % 2 == 0 else "set"} for i in range(len(ids))]
+        if k % 4 == 0:
+            spec["omd"] = [{"unset": None} for _ in spec["obs"]]
+        ra = rng.choice(["dense", "csc", "copy", "sort_roundtrip", "md_reordered"])
+        rb = rng.choice(["dense", "csr_zeros", "lol_dense", "transpose2"])
+        run_pair(ctx, pair_case(spec, ra, spec, rb, gen_steps(rng, rng.choice([0, 1])), "equal", exports=(k % 5 == 0)),
+                 ("none-valued-md",))
+        other = copy.deepcopy(spec)
+        ax = "omd" if other.get("omd") else "smd"
+        i = rng.randrange(len(other[ax]))
+        if "unset" in other[ax][i] and other[ax][i]["unset"] is None and k % 2:
+            del other[ax][i]["unset"]              # the key bound to None goes away on one ID
+            if k % 4 == 0:
+                other[ax] = None if all(not e for e in other[ax]) else other[ax]
+        else:
+            other[ax][i]["another_unset"] = None   # ... or one more such key appears
+        ctx.count("single-difference=md_none_key")
+        if k % 2:
+            run_pair(ctx, pair_case(spec, ra, other, rb, [], "differs"), ("none-valued-md", "single-difference"))
+        else:
+            run_pair(ctx, pair_case(other, rb, spec, ra, [], "differs"), ("none-valued-md", "single-difference"))
+
     # 4e. metadata dicts that differ only in key insertion order on some IDs: equal tables, equal exports
     for k in range(50 if quick else 600):
         spec = gen_spec(rng, quick, nonuniform=False)
@@ -1786,7 +1942,7 @@ def run(ctx):
 
     # 4f. aliasing: the SOURCE of a derivation (kept alive) after the derived table was updated in place must
     #     still equal an independent construction, have its content, and answer by ID through its own lookups
-    for k in range(100 if quick else 800):
+    for k in range(80 if quick else 800):
         spec = gen_spec(rng, quick, nonuniform=(k % 5 == 0))
         if k % 3 == 0 and spec.get("omd") is None:
             spec["omd"] = core.gen_md(rng, spec["obs"], kind="mixed")
@@ -1941,7 +2097,7 @@ def run(ctx):
             run_pair(ctx, pair_case(other, rb, spec, ra, st, "differs"), ("single-difference", "mutation=" + kind))
 
     # 6. kernel level: dataEq vs the real _data_equality, eliminateZeros vs scipy's eliminate_zeros
-    for k in range(450 if quick else 8000):
+    for k in range(400 if quick else 8000):
         run_kernel(ctx, gen_kernel_case(rng), ("kernel",))
 
     state_cases("late")
